@@ -52,9 +52,17 @@ def _ConvertFunctionType(ft: LinearIR.FunctionType) -> WebAssembly.FunctionType:
     resultTypes = []
 
     for argType in ft.Arguments.values():
+        if not argType.IsScalar():
+            raise RuntimeError(
+                f"Unsupported parameter type for WebAssembly: {argType}"
+            )
         argTypes.append(_ConvertType(argType))
 
     if not ft.ReturnType.IsVoid():
+        if not ft.ReturnType.IsScalar():
+            raise RuntimeError(
+                f"Unsupported return type for WebAssembly: {ft.ReturnType}"
+            )
         resultTypes.append(_ConvertType(ft.ReturnType))
 
     return WebAssembly.FunctionType(argTypes, resultTypes)
